@@ -275,6 +275,10 @@ def _case(i):
         prog = prog + [(0, 1, 65, None), (1, 1, rng.choice([1, 2]), None)]
     else:
         name, prog = gen.gen_case(rng, allow_input=False, weights={'random': 0.3, 'template': 0.3, 'mutant': 0.4})
+    empty = (i % 97 == 5)
+    if empty:
+        # a file without a single command: the debugger has nothing to step and must end at once, whatever is typed
+        name, prog, deep, replay = 'empty_program', [], False, False
     lim = Limits(steps=1500)
     m, ro, re_, rend = P.admit(prog, '', lim)
     if rend.startswith('notadmitted') or m.st['stdin_reads']:
@@ -284,10 +288,15 @@ def _case(i):
         res['status'] = 'reject:alphabet'
         return res
     text = P.render_text(rng, prog)
+    if empty:
+        text = rng.choice(['', '\n', 'plain text without commands\n', '... ♥ ? !\n', '하 하 흐\n', '\ufeff', '엉 앙 읏'])
     if text is None:
         res['status'] = 'reject:render'
         return res
     parsed = refparse.parse(text)
+    if len(refparse.commands_only(parsed)) != len(prog):
+        res['status'] = 'reject:render'
+        return res
     script = gen_script(rng, len(prog), deep)
     if replay:
         total = m.steps
@@ -313,6 +322,8 @@ def _case(i):
         last_eol = '' if (script and script[-1].strip() and rng.random() < 0.2) else eol
         p = C.run_proc([C.HYEONG, 'debug', '--color', 'never', path], (eol.join(script) + last_eol).encode() if script else b'', cpu=20)
         res['hist'] = stats
+        if empty:
+            stats['empty_program_sessions'] = 1
         if replay:
             stats['replay_sessions'] = 1
             if m.st['heart_returns'] or name == 'replay:early_heart':
